@@ -17,6 +17,11 @@ import (
 //     authentic message of the same sender with a fresh nonce, "V" an authentic message of ANOTHER node
 //     id carrying the same nonce as M, "R" the byte-identical replay of M. U and V are stamped with the
 //     receiver's current second. Example: "+0 M +541 U +0 R".
+//     CONNECTIONS (sites served over a long-lived connection: the three HTTP sites and forward-apply):
+//     every delivery of a history travels over the history's ONE keep-alive connection to the ONE
+//     long-lived server, except a delivery whose token carries the suffix "f" ("Rf"): that one is sent
+//     over a FRESH connection opened for it (and kept open until the history ends). Example:
+//     "+0 M +0 U +0 Rf" = M and U back to back on the keep-alive connection, the replay from a second one.
 //
 // Case must stay comparable (map key, == on observations).
 type Case struct {
@@ -52,6 +57,32 @@ type Class struct {
 	MaxDelay int64  `json:"max_replay_delay_ns"`
 	MinOff   int64  `json:"min_ts_offset_s"`
 	MaxOff   int64  `json:"max_ts_offset_s"`
+	// where the minimal case sits in the enumeration: its global index (1-based, the order of
+	// enumerate*/enumerateHist, identical in every run of a tier) and the shard that ran it. Used when
+	// the case does not reproduce on its own: the shard's whole case sequence up to it is re-run.
+	MinIdx   int `json:"min_case_index"`
+	MinShard int `json:"min_case_shard"`
+}
+
+// SeqSpec names a prefix of one worker's deterministic case sequence: the cases of shard Shard (of Of)
+// of tier Tier with enumeration index <= Upto, run in enumeration order in ONE process.
+type SeqSpec struct {
+	Tier  string `json:"tier"`
+	Shard int    `json:"shard"`
+	Of    int    `json:"of"`
+	Upto  int    `json:"upto_case_index"`
+	// measured by the re-run
+	Cases      int `json:"cases_in_sequence"`
+	Deliveries int `json:"deliveries_in_sequence"`
+}
+
+// SeqReplay is the replay object of a violation that only shows after the preceding deliveries of the
+// worker's own sequence (kind ...|depends-on-preceding-deliveries).
+type SeqReplay struct {
+	Case     Case    `json:"case"`
+	Observed Obs     `json:"observed"`
+	Sequence SeqSpec `json:"sequence"`
+	Isolated []Obs   `json:"observed_in_isolation"`
 }
 
 type SiteInfo struct {
@@ -84,10 +115,29 @@ type WorkerOut struct {
 	Intervals        map[string]int64   `json:"cache_duration_constants"`
 	IntervalsAssumed bool               `json:"cache_interval_assumed_60s"`
 	HistGaps         map[string][]int64 `json:"history_gap_grid_s"`
-	UnrelatedSeen    map[string]int     `json:"unrelated_deliveries"` // "<site>:<U|V>=<outcome>" -> n
+	HistFreshGaps    map[string][]int64 `json:"history_fresh_conn_quick_gap_grid_s"` // quick's reduced grid for the Rf variants
+	UnrelatedSeen    map[string]int     `json:"unrelated_deliveries"`                // "<site>:<U|V>=<outcome>" -> n
+	// connection accounting per site: deliveries served on a connection that had already served an
+	// earlier request (keep-alive reuse), deliveries on a fresh connection opened for them, connections
+	// the server closed under the harness (re-dialled)
+	ConnReused     map[string]int `json:"conn_reused_deliveries"`
+	ConnFresh      map[string]int `json:"conn_fresh_deliveries"`
+	ConnReconnects map[string]int `json:"conn_reconnects"`
+	// -upto runs: the observation of the target case (nil when the index is not in this shard)
+	Target *Obs `json:"target,omitempty"`
 }
 
-// histShape: the delivery letters of a history ("MUR"), the number of deliveries, the sum of all
+// histFresh: does the history deliver anything over a fresh connection (a token with suffix "f")?
+func histFresh(h string) bool {
+	for _, t := range strings.Fields(h) {
+		if t[0] != '+' && len(t) > 1 && t[len(t)-1] == 'f' {
+			return true
+		}
+	}
+	return false
+}
+
+// histShape: the delivery letters of a history ("MUR"; connection suffixes dropped), the sum of all
 // advances and the sum of the advances between M and R (seconds).
 func histShape(h string) (shape string, total, mToR int64) {
 	afterM := false
@@ -100,6 +150,7 @@ func histShape(h string) (shape string, total, mToR int64) {
 			}
 			continue
 		}
+		t = t[:1]
 		shape += t
 		if t == "M" {
 			afterM = true
@@ -115,7 +166,8 @@ func histShape(h string) (shape string, total, mToR int64) {
 // original+replay pair precedes every history (a class such a pair exhibits keeps the signature it
 // always had), a history (at most 4 deliveries) precedes a pair with eviction ticks in between (one
 // delivery per 61 s); histories order by number of deliveries, time between M and R, total time,
-// |offset|, then text.
+// |offset|, then text (so a history whose deliveries all use the keep-alive connection precedes the same
+// history with the replay on a fresh connection: "... R" < "... Rf").
 func caseLess(a, b Case) bool {
 	rank := func(c Case) int { // plain pair < history < pair with eviction ticks (up to a dozen deliveries)
 		switch {
